@@ -7,7 +7,7 @@ from mc.runner import Acc, jsonable
 
 ID = 'C15'
 LEVEL = 'model_checking'
-RULE = ('criteria ranges = all vectors of length <= 3 over an 11-value mixed pool and length 4 over a 6-value pool, as a '
+RULE = ('criteria ranges = all vectors of length <= 3 over an 11-value mixed pool and length 4 over a 6-value pool (the full pool in thorough), as a '
         'column and as an r x c block, paired with a value range holding distinct powers of two (so the SUM identifies '
         'exactly which positions were selected) x every criterion of the grammar {n, "n", "=n", "<>n", "<n", "<=n", ">n", '
         '">=n", text, "=text", "<>text", wildcards, "", "=", "<>"} held in a cell: COUNTIF / SUMIF / AVERAGEIF / MAXIFS / '
@@ -121,12 +121,13 @@ def expected(fn, sel, vals):
 
 
 def work_single(job):
-    k, m, maxlen = job
+    k, m, maxlen = job[:3]
+    full4 = len(job) > 3 and job[3]
     acc = Acc()
     ev = feval.Evaluator()
     i = 0
     for n in range(1, maxlen + 1):
-        pool = POOL if n <= 3 else POOL_SMALL
+        pool = POOL if (n <= 3 or full4) else POOL_SMALL
         for vec in itertools.product(pool, repeat=n):
             i += 1
             if i % m != k:
@@ -311,7 +312,8 @@ def work_cells(job):
 
 def run(ctx):
     m = 64
-    ctx.pmap(work_single, [((k + ctx.seed) % m, m, 4 if not ctx.thorough else 4) for k in range(m)], timeout=6000)
+    m = 64 if not ctx.thorough else 256
+    ctx.pmap(work_single, [((k + ctx.seed) % m, m, 4, ctx.thorough) for k in range(m)], timeout=12000)
     ctx.pmap(work_multi, [(k, 32) for k in range(32)], timeout=6000)
     ctx.pmap(work_cells, [(0,)], timeout=600)
     ctx.counts['traces_validated_against_impl'] = ctx.counts.get('evaluations', 0)
